@@ -18,6 +18,7 @@ fn main() {
     let code = match args.get(1).map(|s| s.as_str()) {
         Some("check") if args.len() >= 4 => check(&args[2], &args[3]),
         Some("replay") if args.len() >= 3 => replay(&args[2]),
+        Some("dbgfam") => { props::c20::debug_family(); 0 }
         Some("list") => { for (id, _) in props::ALL { println!("{id}"); } 0 }
         _ => { eprintln!("usage: lc3mc check <ID> <quick|thorough> | replay <path> | list"); 2 }
     };
